@@ -11,8 +11,10 @@ suite=$(cargo test --workspace --offline 2>&1 | grep -E "^test result" | awk '{p
 mkdir -p $wt/$crate/tests; cp $out/$demo $wt/$crate/tests/
 t=${demo%.rs}
 with=$(cargo test -p $crate --test $t --offline 2>&1 | grep -E "^test result" | head -1)
-git stash -q
+# (no `git stash`: the stash is shared between all worktrees of a repository)
+git diff -- . ':!'$crate/tests > /tmp/mut/${id}_cur.diff
+git apply -R /tmp/mut/${id}_cur.diff
 without=$(cargo test -p $crate --test $t --offline 2>&1 | grep -E "^test result" | head -1)
-git stash pop -q
+git apply /tmp/mut/${id}_cur.diff
 rm -rf $wt/$crate/tests
 echo "$id suite-with-change: $suite | demo-with-change: $with | demo-without: $without"
